@@ -252,6 +252,9 @@ def scalar_class(v) -> tuple[str, str, int]:
             return ("float", "negative-zero", 4)
         return ("float", "plain", 0)
     if isinstance(v, str):
+        ctl = sorted({c for c in v if (ord(c) < 32 and c not in "\n\t") or ord(c) == 127})
+        if ctl:
+            return ("str", "contains-vt-ff-or-cr" if any(c in "\x0b\x0c\r" for c in ctl) else "contains-other-control-char", 10)
         if '"' in v:
             return ("str", "contains-quote", 9)
         if "\\" in v:
@@ -318,14 +321,14 @@ def shape(tp) -> str | None:
     return None
 
 
-STR_CHARS = ["a", " ", '"', "\\", ",", "=", "{", "}", "-", "1", "é", "\n"]
+STR_CHARS = ["a", " ", '"', "\\", ",", "=", "{", "}", "-", "1", "é", "\n", "\t", "\r", "\f", "\v", "\x00", "\x7f"]
 STR_EXTRA = ["true", "false", "1", "1.0", ""]
-INTS = [0, 1, -1, 2**63]
+INTS = [0, 1, -1, 2**63, 2**53 + 1, -(2**53) - 1, 10**30 + 1, 10**400]
 FLOATS = [0.0, -0.0, 1.5, 1e-7, 1e22, -2.5e-3, INF, NAN]
 # reduced alphabets: subsets of the full ones (tuple elements and pairs)
 STR_RED = ["a", "", " ", '"', "\\", ",", "=", "{", "}", "-", "1", "é", "\n", "true", "a b", "1.0"]
 STR_PAIR = ["a", "", " ", '"', "\\", ",", "a=", "true", "1", "é"]
-INT_PAIR = [0, -1, 2**63]
+INT_PAIR = [0, -1, 2**63, 2**53 + 1]
 FLOAT_PAIR = [-0.0, 1.5, 1e-7, INF]
 
 
